@@ -73,6 +73,8 @@ def _batch(run, prog, cls, method, original):
     run.need(len(outer) == 1, f"{fq}: the chain is not nested in exactly one observation loop")
     O = outer[0]
     elem = ("elem", L.lid)
+    if L.iter[0] == "fn" and L.iter[1] == "enumerate" and L.iter[2]:
+        elem = ("tget", elem, 1)        # the chain is numbered: the feature is the second component
     it = O.iter
     enum = it[0] == "fn" and it[1] == "enumerate"
     start_ix = None
